@@ -176,121 +176,121 @@ package analysis
 // condition -- the if and every elseif -- in the scope that encloses the whole statement, never in the scope of the
 // previous branch, so a local of one branch cannot capture a name in the next condition.
 //@ func (*Analysis).cgAssignStat
-//@   props C07 C06 C11
+//@   props C07 C06 C11 C05 C14
 //@   ensures[scope-stack-restored] a.curScope == old(a.curScope) && a.curFunc == old(a.curFunc)
 //@   loop all invariant a.curScope == old(a.curScope) && a.curFunc == old(a.curFunc)
 //@ end
 //@ func (*Analysis).cgBinopExp
-//@   props C07 C06 C11
+//@   props C07 C06 C11 C05 C14
 //@   ensures[scope-stack-restored] a.curScope == old(a.curScope) && a.curFunc == old(a.curFunc)
 //@   loop all invariant a.curScope == old(a.curScope) && a.curFunc == old(a.curFunc)
 //@ end
 //@ func (*Analysis).cgBlock
-//@   props C07 C06 C11
+//@   props C07 C06 C11 C05 C14
 //@   ensures[scope-stack-restored] a.curScope == old(a.curScope) && a.curFunc == old(a.curFunc)
 //@   loop all invariant a.curScope == old(a.curScope) && a.curFunc == old(a.curFunc)
 //@ end
 //@ func (*Analysis).cgDoStat
-//@   props C07 C06 C11
+//@   props C07 C06 C11 C05 C14
 //@   ensures[scope-stack-restored] a.curScope == old(a.curScope) && a.curFunc == old(a.curFunc)
 //@ end
 //@ func (*Analysis).cgExp
-//@   props C07 C06 C11
+//@   props C07 C06 C11 C05 C14
 //@   ensures[scope-stack-restored] a.curScope == old(a.curScope) && a.curFunc == old(a.curFunc)
 //@   loop all invariant a.curScope == old(a.curScope) && a.curFunc == old(a.curFunc)
 //@ end
 //@ func (*Analysis).cgForInStat
-//@   props C07 C06 C11
+//@   props C07 C06 C11 C05 C14
 //@   ensures[scope-stack-restored] a.curScope == old(a.curScope) && a.curFunc == old(a.curFunc)
 //@   loop all invariant a.curFunc == old(a.curFunc) && a.curScope == subScope
 //@ end
 //@ func (*Analysis).cgForNumStat
-//@   props C07 C06 C11
+//@   props C07 C06 C11 C05 C14
 //@   ensures[scope-stack-restored] a.curScope == old(a.curScope) && a.curFunc == old(a.curFunc)
 //@ end
 //@ func (*Analysis).cgFuncCallExp
-//@   props C07 C06 C11
+//@   props C07 C06 C11 C05 C14
 //@   ensures[scope-stack-restored] a.curScope == old(a.curScope) && a.curFunc == old(a.curFunc)
 //@   loop all invariant a.curScope == old(a.curScope) && a.curFunc == old(a.curFunc)
 //@ end
 //@ func (*Analysis).cgFuncCallStat
-//@   props C07 C06 C11
+//@   props C07 C06 C11 C05 C14
 //@   ensures[scope-stack-restored] a.curScope == old(a.curScope) && a.curFunc == old(a.curFunc)
 //@   loop all invariant a.curScope == old(a.curScope) && a.curFunc == old(a.curFunc)
 //@ end
 //@ func (*Analysis).cgFuncDefExp
-//@   props C07 C06 C11
+//@   props C07 C06 C11 C05 C14
 //@   ensures[scope-stack-restored] a.curScope == old(a.curScope) && a.curFunc == old(a.curFunc)
 //@ end
 //@ func (*Analysis).cgIfStat
-//@   props C07 C06 C11
+//@   props C07 C06 C11 C05 C14
 //@   ensures[scope-stack-restored] a.curScope == old(a.curScope) && a.curFunc == old(a.curFunc)
 //@ end
 //@ func (*Analysis).cgLocalFuncDefStat
-//@   props C07 C06 C11
+//@   props C07 C06 C11 C05 C14
 //@   ensures[scope-stack-restored] a.curScope == old(a.curScope) && a.curFunc == old(a.curFunc)
 //@   loop all invariant a.curScope == old(a.curScope) && a.curFunc == old(a.curFunc)
 //@ end
 //@ func (*Analysis).cgLocalVarDeclStat
-//@   props C07 C06 C11
+//@   props C07 C06 C11 C05 C14
 //@   ensures[scope-stack-restored] a.curScope == old(a.curScope) && a.curFunc == old(a.curFunc)
 //@   loop all invariant a.curScope == old(a.curScope) && a.curFunc == old(a.curFunc)
 //@ end
 //@ func (*Analysis).cgRepeatStat
-//@   props C07 C06 C11
+//@   props C07 C06 C11 C05 C14
 //@   ensures[scope-stack-restored] a.curScope == old(a.curScope) && a.curFunc == old(a.curFunc)
 //@ end
 //@ func (*Analysis).cgRetStat
-//@   props C07 C06 C11
+//@   props C07 C06 C11 C05 C14
 //@   ensures[scope-stack-restored] a.curScope == old(a.curScope) && a.curFunc == old(a.curFunc)
 //@   loop all invariant a.curScope == old(a.curScope) && a.curFunc == old(a.curFunc)
 //@ end
 //@ func (*Analysis).cgStat
-//@   props C07 C06 C11
+//@   props C07 C06 C11 C05 C14
 //@   ensures[scope-stack-restored] a.curScope == old(a.curScope) && a.curFunc == old(a.curFunc)
 //@   loop all invariant a.curScope == old(a.curScope) && a.curFunc == old(a.curFunc)
 //@ end
 //@ func (*Analysis).cgTableAccessExp
-//@   props C07 C06 C11
+//@   props C07 C06 C11 C05 C14
 //@   ensures[scope-stack-restored] a.curScope == old(a.curScope) && a.curFunc == old(a.curFunc)
 //@   loop all invariant a.curScope == old(a.curScope) && a.curFunc == old(a.curFunc)
 //@ end
 //@ func (*Analysis).cgTableConstructorExp
-//@   props C07 C06 C11
+//@   props C07 C06 C11 C05 C14
 //@   ensures[scope-stack-restored] a.curScope == old(a.curScope) && a.curFunc == old(a.curFunc)
 //@   loop all invariant a.curScope == old(a.curScope) && a.curFunc == old(a.curFunc)
 //@ end
 //@ func (*Analysis).cgUnopExp
-//@   props C07 C06 C11
+//@   props C07 C06 C11 C05 C14
 //@   ensures[scope-stack-restored] a.curScope == old(a.curScope) && a.curFunc == old(a.curFunc)
 //@   loop all invariant a.curScope == old(a.curScope) && a.curFunc == old(a.curFunc)
 //@ end
 //@ func (*Analysis).cgWhileStat
-//@   props C07 C06 C11
+//@   props C07 C06 C11 C05 C14
 //@   ensures[scope-stack-restored] a.curScope == old(a.curScope) && a.curFunc == old(a.curFunc)
 //@ end
 //@ func (*Analysis).checkLeftAssign
-//@   props C07 C06 C11
+//@   props C07 C06 C11 C05 C14
 //@   ensures[scope-stack-restored] a.curScope == old(a.curScope) && a.curFunc == old(a.curFunc)
 //@   loop all invariant a.curScope == old(a.curScope) && a.curFunc == old(a.curFunc)
 //@ end
 //@ func (*Analysis).deepHanleReferFile
-//@   props C07 C06 C11
+//@   props C07 C06 C11 C05 C14
 //@   ensures[scope-stack-restored] a.curScope == old(a.curScope) && a.curFunc == old(a.curFunc)
 //@ end
 //@ func (*Analysis).GetImportRefer
-//@   props C07 C06 C11
+//@   props C07 C06 C11 C05 C14
 //@   ensures[scope-stack-restored] a.curScope == old(a.curScope) && a.curFunc == old(a.curFunc)
 //@   loop all invariant a.curScope == old(a.curScope) && a.curFunc == old(a.curFunc)
 //@ end
 //@ func (*Analysis).GetImportReferByCallExp
-//@   props C07 C06 C11
+//@   props C07 C06 C11 C05 C14
 //@   ensures[scope-stack-restored] a.curScope == old(a.curScope) && a.curFunc == old(a.curFunc)
 //@   loop all invariant a.curScope == old(a.curScope) && a.curFunc == old(a.curFunc)
 //@ end
 //@ func (*Analysis).cgIfStat
-//@   props C07 C06 C11
-//@   loop range:node.Exps#1 invariant [C07,C06,C11] a.curScope == scope && a.curFunc == old(a.curFunc)
+//@   props C07 C06 C11 C05 C14
+//@   loop range:node.Exps#1 invariant [C07,C06,C11,C05,C14] a.curScope == scope && a.curFunc == old(a.curFunc)
 //@   at call cgExp#0 before assert[condition-is-analysed-in-the-scope-enclosing-the-statement] a.curScope == scope && scope == old(a.curScope)
 //@ end
 
